@@ -10,6 +10,9 @@ theorem TK.mem_all (k : TK) : k ∈ TK.all := by cases k <;> decide
 instance instDecidableForallTK (p : TK → Prop) [DecidablePred p] : Decidable (∀ k, p k) :=
   decidable_of_iff (∀ k ∈ TK.all, p k) ⟨fun h k => h k (TK.mem_all k), fun h k _ => h k⟩
 
+instance instDecidableExistsTK (p : TK → Prop) [DecidablePred p] : Decidable (∃ k, p k) :=
+  decidable_of_iff (∃ k ∈ TK.all, p k) ⟨fun ⟨k, _, h⟩ => ⟨k, h⟩, fun ⟨k, h⟩ => ⟨k, TK.mem_all k, h⟩⟩
+
 /-- kinds that only ever sit at the end of a prefix / REF / LABEL / RANGE chain -/
 def TK.leaf : TK → Bool
   | .REF | .RANGE | .LABEL | .CONSTANT | .SYSTEM_META | .URGENT | .BROADCAST | .COMMITTED | .HYBRID => false
